@@ -354,6 +354,7 @@ def main():
         per_job.append(jr)
         if len(samples) < 3 and j["groups"]:
             cands = [(gi, x) for gi, x in enumerate(j["groups"]) if not (x["form"] == "R" and x.get("only_if_failed"))]
+            cands.sort(key=lambda c: -(len(c[1]["items"]) + len(c[1].get("raw", []))))
             if cands:
                 gi, g = cands[0]
                 samples.append({"scenario": j["scenario"], "shape": j.get("shape"), "params": j.get("params"), "concrete": j.get("concrete"), "group": g["name"], "form": g["form"], "claim": g["claim"], "items": ([i["name"] for i in g["items"]] + [q["name"] for q in g.get("raw", [])])[:12], "n_vars": len(g["vars"]), "vars_head": g["vars"][:12], "verdict": results[gkey(f, gi, g)]["verdict"], "path_conditions_head": j.get("path_conditions", [])[:4]})
@@ -404,6 +405,7 @@ def main():
             "samples": samples,
             "obligations": obligations,
             "discharged": discharged,
+            "identities_closed_by_hash_consing": sum(g.get("n_syntactic", 0) for f, j in jobs for g in j["groups"]),
             "programs": len(jobs),
             "disagreements_checked": len(violations),
             "structural_checks": structural_total,
